@@ -4,5 +4,5 @@ if [ -n "$(git -C /repo status --porcelain)" ]; then echo "refusing: /repo has u
 # property's quick check, undo the change. Prints the VIOLATION lines and the summary line.
 d=/verif/seeded/$1; prop=$2
 cd /repo && git apply $d/patch.diff || { echo "patch failed"; exit 2; }
-cd /verif && ./bin/vcheck -p $prop 2>&1 | grep -E "VIOLATION|KNOWN|^C[0-9]+:" | cut -c1-220
+cd /verif && ./bin/vcheck -evidence /tmp/verif-scratch-evidence -p $prop 2>&1 | grep -E "VIOLATION|KNOWN|^C[0-9]+:" | cut -c1-220
 cd /repo && git checkout -q -- . && git status --short | head -3
